@@ -55,11 +55,16 @@ func init() {
 			k := g.Range(c.Min, c.Max)
 			sc.SetInt("k", k)
 			for i := 0; i < k; i++ {
-				mode := g.Pick("endless", "endless", "hot", "never", "sync")
+				mode := g.Pick("endless", "endless", "hot", "never", "sync", "async")
 				sp := SrcSpec{Mode: mode}
 				switch mode {
 				case "endless":
 					sp.Script = []Step{{K: "N", Gap: g.PickInt(1, 2, 3)}}
+				case "async":
+					// emits from its own goroutine as soon as it is subscribed: a termination it causes
+					// (its error, or the terminator reached on its values) races with the subscriptions
+					// the operator is still making
+					sp.Script = genScript(g, (i+1)*10, 3, "E-E", false)
 				default:
 					sp.Script = genScript(g, (i+1)*10, 3, "C-", false)
 				}
@@ -82,7 +87,7 @@ func init() {
 		Weight: 2,
 		Gen: func(g *Gen) *Scn {
 			sc := &Scn{Family: "C14.ctx"}
-			sc.Sub = g.Pick("Interval", "IntervalWithInitial", "Never", "Timer", "RangeWithInterval", "RepeatWithInterval", "ThrowOnContextCancel", "Retry")
+			sc.Sub = g.Pick("Interval", "IntervalWithInitial", "Never", "Timer", "RangeWithInterval", "RepeatWithInterval", "ThrowOnContextCancel", "Retry", "RetryTimer", "RetryNever")
 			sc.SetInt("d", g.PickInt(1, 2, 3))
 			sc.SetInt("at", g.Range(0, 8))
 			sc.SetInt("reset", g.Intn(2)) // a ContextReset stage between the source and the subscriber
@@ -273,6 +278,12 @@ func runC14Ctx(e *Env) {
 	case "ThrowOnContextCancel":
 		src = e.NewSrc(SrcSpec{Mode: "endless", Script: []Step{{K: "N", Gap: sc.Int("d", 1)}}})
 		o = ro.ThrowOnContextCancel[int]()(src.Obs())
+	case "RetryTimer":
+		// a context-aware source that reports the cancellation as its error, below an undelayed Retry:
+		// the cancellation must end the retry loop, not feed it
+		o = ro.Retry[int]()(ro.Map(func(t time.Duration) int { return 1 })(ro.Timer(100 * Unit)))
+	case "RetryNever":
+		o = ro.RetryWithConfig[int](ro.RetryConfig{MaxRetries: 3})(ro.Map(func(struct{}) int { return 1 })(ro.Never()))
 	case "Retry":
 		src = e.NewSrc(SrcSpec{Mode: "timed", Script: []Step{{K: "N", V: 1, Gap: 1}, {K: "E", V: 2, Gap: 1}}})
 		o = ro.RetryWithConfig[int](ro.RetryConfig{Delay: d})(src.Obs())
